@@ -49,6 +49,12 @@ def gen_init(rng, nv, maxg, ops):
 
     c1 = {"inv": i1, "outv": o1, "a": lst(i1, 1, 1), "g": lst(i1 + o1, 2, maxg)}
     c2 = {"inv": i2, "outv": o2, "a": lst(i2, 4, 1), "g": lst(i2 + o2, 5, maxg)}
+    both_in = [v for v in i1 if v in i2]
+    if both_in and rng.random() < 0.5:
+        # the SAME assumption, word for word, in both contracts (a fan-out of a top-level input): it belongs to the result once, not never
+        t = {"tag": 7, "vars": sub_nonempty(rng, both_in)}
+        c1["a"] = c1["a"] + [dict(t)]
+        c2["a"] = c2["a"] + [dict(t)]
     op = rng.choice(ops)
     if op == "merge":
         opt = []
